@@ -42,7 +42,7 @@ Record bucket := mkB {
 Definition new (now mx bps per : Z) : res bucket :=
   let pms := ms per in
   let rf := Z.quot (i64_sat (bps * as_i64 pms)) 1000 in
-  if (0 <? mx) && (0 <? bps) && (0 <? as_u32 pms) && (0 <? rf)
+  if (0 <? mx) && (0 <? bps) && (0 <? as_u32 pms) && (pms <=? U32MAX) && (0 <? rf)
   then Ok (mkB mx mx now per rf)
   else Err 1.
 
@@ -53,11 +53,11 @@ Definition update_state (b : bucket) (now : Z) : res bucket :=
   if d =? 0 then Panic else                              (* u32 division by zero *)
   let periods := as_u32 el / d in
   if periods =? 0 then Ok b else
-  match i64_checked (periods * refill b) with | None => Panic | Some prod =>
+  let prod := i64_sat (periods * refill b) in            (* (periods as i64).saturating_mul(refill)  [fix] *)
   let f := Z.min (i64_sat (fill b + prod)) (bmax b) in
   let adv := period b * periods in                       (* Duration * u32, checked *)
   if DUR_MAX <? adv then Panic else
-  Ok (mkB f (bmax b) (last_fill b + adv) (period b) (refill b)) end.
+  Ok (mkB f (bmax b) (last_fill b + adv) (period b) (refill b)).
 
 (* Bucket::consume (462-478): new state and Ok (None) / Err deadline (Some d). *)
 Definition consume (b : bucket) (now n : Z) : res (bucket * option Z) :=
@@ -71,11 +71,11 @@ Definition consume (b : bucket) (now n : Z) : res (bucket * option Z) :=
       if 0 <? f then Ok (b2, None) else
       let missing := i64_sat (- f) in                    (* saturating_neg *)
       if refill b2 =? 0 then Panic else                  (* i64 division by zero *)
-      match i64_checked (Z.quot missing (refill b2) + 1) with | None => Panic | Some pn =>
+      let pn := i64_sat (Z.quot missing (refill b2) + 1) in   (* .saturating_add(1)  [fix] *)
       let pn32 := if (0 <=? pn) && (pn <=? U32MAX) then pn else U32MAX in
       let w := pn32 * period b2 in                       (* u32 * Duration, checked *)
       if DUR_MAX <? w then Panic else
-      Ok (b2, Some (last_fill b2 + w)) end
+      Ok (b2, Some (last_fill b2 + w))
   end.
 
 (* ClientRateLimit: bytes_per_second (NonZeroU32), max_burst_bytes (Option<NonZeroU32>) *)
@@ -288,7 +288,32 @@ Fixpoint mon_reader (lim : option (Z * Z * Z * Z)) (c : Z) (pd : option (option 
   | _, _ => true
   end.
 
+(* The property's quantifier: values of the Rust types.  i64 parameters, a
+   Duration, non-negative time advances, usize byte counts, a read buffer of
+   at most isize::MAX bytes, NonZeroU32 limits. *)
+Definition wf_cfg (c : option cfg) : bool :=
+  match c with
+  | None => true
+  | Some (bps, burst) =>
+      (1 <=? bps) && (bps <=? U32MAX) &&
+      match burst with None => true | Some m => (1 <=? m) && (m <=? U32MAX) end
+  end.
+Definition wf_ev (e : ev) : bool :=
+  match e with
+  | Advance dt => 0 <=? dt
+  | Consume n => (0 <=? n) && (n <? TWO64)
+  | Poll avail cap => (0 <=? avail) && (0 <=? cap) && (cap <=? I64_MAX)
+  | Reconfig c => wf_cfg c
+  end.
+Definition wf_setup (s : setup) : bool :=
+  match s with
+  | SBucket mx bps per => i64_in mx && i64_in bps && (0 <=? per) && (per <=? DUR_MAX)
+  | SReader c => wf_cfg c
+  end.
+Definition wf_input (i : input) : bool := wf_setup (fst i) && forallb wf_ev (snd i).
+
 Definition monitor (i : input) (o : output) : bool :=
+  if negb (wf_input i) then true else
   match o with
   | Panic => false                       (* no configuration or byte count may panic *)
   | Err _ => true                        (* configuration rejected: nothing ran *)
